@@ -1073,6 +1073,21 @@ void htp_utf8_decode_path_inplace(htp_cfg_t *cfg, htp_tx_t *tx, bstr *path) {
         }
     }
 
+    // Did the path end inside a multi-byte character?
+    if (state != HTP_UTF8_ACCEPT) {
+        tx->flags |= HTP_PATH_UTF8_INVALID;
+
+        // Is the server expected to respond with 400?
+        if (cfg->decoder_cfgs[HTP_DECODER_URL_PATH].utf8_invalid_unwanted != HTP_UNWANTED_IGNORE) {
+            tx->response_status_expected_number = cfg->decoder_cfgs[HTP_DECODER_URL_PATH].utf8_invalid_unwanted;
+        }
+
+        // Output the replacement byte, replacing the incomplete sequence.
+        if (wpos < len) {
+            data[wpos++] = cfg->decoder_cfgs[HTP_DECODER_URL_PATH].bestfit_replacement_byte;
+        }
+    }
+
     // Did the input stream seem like a valid UTF-8 string?
     if ((seen_valid) && (!(tx->flags & HTP_PATH_UTF8_INVALID))) {
         tx->flags |= HTP_PATH_UTF8_VALID;
@@ -1160,6 +1175,11 @@ void htp_utf8_validate_path(htp_tx_t *tx, bstr *path) {
                 rpos++;
                 break;
         }
+    }
+
+    // Did the path end inside a multi-byte character?
+    if (state != HTP_UTF8_ACCEPT) {
+        tx->flags |= HTP_PATH_UTF8_INVALID;
     }
 
     // Did the input stream seem like a valid UTF-8 string?
